@@ -1,0 +1,46 @@
+//go:build verif
+
+package gogen
+
+import (
+	"go/token"
+	"io"
+
+	"github.com/goplus/gogen/internal/go/format"
+)
+
+// This file exists only under the `verif` build tag. It exports what the verification
+// harness in /verif cannot reach through the public API; it changes no behaviour.
+
+// VerifFormatNode prints an arbitrary syntax tree with the package's forked formatter
+// (internal/go/format cannot be imported from outside the module).
+func VerifFormatNode(dst io.Writer, node any) error {
+	return format.Node(dst, token.NewFileSet(), node)
+}
+
+// VerifSharedGlobals returns the package-level objects that every Package shares:
+// singleton syntax nodes, helper statements and shared type objects. The harness takes
+// deep snapshots of them around builds to detect in-place mutation of shared state.
+func VerifSharedGlobals() map[string]any {
+	return map[string]any{
+		"underscore":          underscore,
+		"identTrue":           identTrue,
+		"identFalse":          identFalse,
+		"identNil":            identNil,
+		"identAppend":         identAppend,
+		"identLen":            identLen,
+		"identCap":            identCap,
+		"identNew":            identNew,
+		"identMake":           identMake,
+		"identIota":           identIota,
+		"identXgoOk":          identXgoOk,
+		"identXgoIt":          identXgoIt,
+		"stmtXGoOkDecl":       stmtXGoOkDecl,
+		"stmtBreakIfNotXGoOk": stmtBreakIfNotXGoOk,
+		"exprIterNext":        exprIterNext,
+		"tyChan":              tyChan,
+		"tySlice":             tySlice,
+		"TyEmptyInterface":    TyEmptyInterface,
+		"TyError":             TyError,
+	}
+}
